@@ -219,31 +219,14 @@ Proof.
   destruct (is_empty dc); apply IH; auto.
 Qed.
 
-(* the condition that excludes finding C09-F5: every remaining coin of a NoLock gauge is at least its remaining epochs *)
-Definition nolock_ok (g : gauge) : Prop :=
-  g_pool g <> 0 -> forall remain, coins_sub (g_coins g) (g_dist g) = Some remain ->
-  Forall (fun c => remain_epochs g <= snd c) remain.
-
-Lemma nolock_coins_succeeds : forall re remain acc, 1 <= re -> Forall (fun c => re <= snd c) remain ->
-  exists total, nolock_coins re remain acc = Some total.
-Proof.
-  induction remain as [|[d0 R] r IH]; intros acc Hre H; cbn [nolock_coins]; [eauto|].
-  inversion H as [|? ? HR H']; subst. cbn in HR.
-  assert (Q : 1 <= Z.quot R re).
-  { rewrite Z.quot_div_nonneg by lia. apply Z.div_le_lower_bound; lia. }
-  destruct (Z.quot R re <=? 0) eqn:E; [apply Z.leb_le in E; lia|]. apply IH; auto.
-Qed.
-
 Lemma distribute_internal_succeeds : forall cfg thr g ls di cache, thr_no_error thr -> gauge_ok g ->
-  remain_epochs g <> 0 -> nolock_ok g -> exists w di' cache', distribute_internal cfg thr g ls di cache = Ok (w, di', cache').
+  remain_epochs g <> 0 -> exists w di' cache', distribute_internal cfg thr g ls di cache = Ok (w, di', cache').
 Proof.
-  intros cfg thr g ls di cache Ne (Pc & Pd & Le & Sc & Sd) Re Nl. unfold distribute_internal.
+  intros cfg thr g ls di cache Ne (Pc & Pd & Le & Sc & Sd) Re. unfold distribute_internal.
   destruct (coins_sub_succeeds _ _ Sc Pc Sd Pd Le) as (remain & E). rewrite E.
   pose proof (remain_epochs_range g) as Rr.
   apply Z.eqb_neq in Re. rewrite Re. apply Z.eqb_neq in Re.
-  destruct (g_pool g =? 0) eqn:Pl; cbn [negb].
-  2:{ apply Z.eqb_neq in Pl. destruct (nolock_coins_succeeds (remain_epochs g) remain [] ltac:(lia) (Nl Pl remain E)) as (total & T).
-      rewrite T. eauto. }
+  destruct (g_pool g =? 0) eqn:Pl; cbn [negb]; [|eauto].
   destruct (is_empty ls); [eauto|]. destruct (is_empty remain); [eauto|]. destruct (is_small_gauge cfg remain); [eauto|].
   destruct ((sum_locks ls =? 0) || (2 ^ max_int_bits <=? sum_locks ls)); [eauto|].
   destruct (locks_loop_succeeds cfg thr (sum_locks ls * to_int64 (remain_epochs g)) remain ls di cache [] Ne) as (di1 & c1 & t1 & L).
@@ -251,12 +234,12 @@ Proof.
 Qed.
 
 Lemma distribute_loop_succeeds : forall cfg thr tbl gs store lc di cache, thr_no_error thr ->
-  Forall (fun g => gauge_ok g /\ remain_epochs g <> 0 /\ nolock_ok g) gs ->
+  Forall (fun g => gauge_ok g /\ remain_epochs g <> 0) gs ->
   exists store' di', distribute_loop cfg thr tbl gs store lc di cache = Ok (store', di').
 Proof.
   induction gs as [|g r IH]; intros store lc di cache Ne H; cbn [distribute_loop]; [eauto|].
-  inversion H as [|? ? (Hg & Hr & Hn) H']; subst. destruct (base_locks tbl g lc) as [ls lc1].
-  destruct (distribute_internal_succeeds cfg thr g ls di cache Ne Hg Hr Hn) as (w & di1 & c1 & D). rewrite D. apply IH; auto.
+  inversion H as [|? ? (Hg & Hr) H']; subst. destruct (base_locks tbl g lc) as [ls lc1].
+  destruct (distribute_internal_succeeds cfg thr g ls di cache Ne Hg Hr) as (w & di1 & c1 & D). rewrite D. apply IH; auto.
 Qed.
 
 (* ------------------------------------------------------------------ the payout succeeds *)
@@ -290,14 +273,14 @@ Proof.
   destruct (coins_sub (g_coins g) (g_dist g)) as [remain|]; [|discriminate].
   destruct (remain_epochs g =? 0); [discriminate|].
   destruct (negb (g_pool g =? 0)) eqn:Pl.
-  { apply negb_true_iff, Z.eqb_neq in Pl. destruct (nolock_coins (remain_epochs g) remain []) as [total|] eqn:NL; [|discriminate].
-    inversion H; subst; clear H. destruct (is_empty total); auto. apply add_lock_rewards_good; auto.
+  { apply negb_true_iff, Z.eqb_neq in Pl. inversion H; subst; clear H.
+    destruct (is_empty (nolock_coins (remain_epochs g) remain [])); auto. apply add_lock_rewards_good; auto.
     - unfold pool_addr, MODULE. lia.
-    - assert (G : forall rm acc t, pos_coins acc -> nolock_coins (remain_epochs g) rm acc = Some t -> pos_coins t).
-      { induction rm as [|[d0 R] r IH]; intros acc t Pa Ht; cbn [nolock_coins] in Ht; [inversion Ht; subst; auto|].
-        destruct (Z.quot R (remain_epochs g) <=? 0) eqn:E; [discriminate|]. apply Z.leb_gt in E.
-        eapply IH; [|exact Ht]. apply pos_coins_add; auto. constructor; [cbn; lia|constructor]. }
-      eapply G; [|exact NL]. constructor. }
+    - assert (G : forall rm acc, pos_coins acc -> pos_coins (nolock_coins (remain_epochs g) rm acc)).
+      { induction rm as [|[d0 R] r IH]; intros acc Pa; cbn [nolock_coins]; auto.
+        destruct (Z.quot R (remain_epochs g) <=? 0) eqn:E; [auto|]. apply Z.leb_gt in E.
+        apply IH. apply pos_coins_add; auto. constructor; [cbn; lia|constructor]. }
+      apply G. constructor. }
   destruct (is_empty ls); [inversion H; subst; auto|]. destruct (is_empty remain); [inversion H; subst; auto|].
   destruct (is_small_gauge cfg remain); [inversion H; subst; auto|].
   destruct ((sum_locks ls =? 0) || (2 ^ max_int_bits <=? sum_locks ls)); [inversion H; subst; auto|].
@@ -405,10 +388,9 @@ Proof.
 Qed.
 
 Theorem epoch_succeeds : forall cfg thr s, Inv s -> Inv2 s -> thr_no_error thr ->
-  (forall g, takes_part s g -> nolock_ok g) ->
   exists s', after_epoch_end cfg thr s = Ok s'.
 Proof.
-  intros cfg thr s I J Ne Hnl. unfold after_epoch_end.
+  intros cfg thr s I J Ne. unfold after_epoch_end.
   pose proof I as [Ig Id Il Iu Ia If Ip Iids Ind Ilast Iacct Ifill]. destruct J as [Ju Ja Jf Jr Jo].
   assert (Rng : forall x, 0 < cnt_all (s_up s) x + cnt_all (s_act s) x + cnt_all (s_fin s) x -> get_gauge (s_gauges s) x <> None).
   { intros x Hx. apply Iids. specialize (Ip x). destruct (in_range s x); [reflexivity|lia]. }
@@ -446,13 +428,8 @@ Proof.
   (* 4: the distribution *)
   unfold distribute. cbn [s_locks s_gauges s_bank s_act s_fin s_now s_last_gauge s_up s_last_lock s_routable].
   rewrite Forall_forall in Ig, Id.
-  assert (FA : Forall (fun g => gauge_ok g /\ remain_epochs g <> 0 /\ nolock_ok g) acts).
-  { apply Forall_forall. intros g Hi. destruct (InA g Hi) as [Hs Hc]. split; [auto|]. split; [apply (remain_epochs_nonzero s g I Hs); apply A1pos; auto|].
-    apply Hnl. split; auto. destruct (Z_lt_le_dec 0 (cnt_all (s_act s) (g_id g))); [left; auto|right].
-    destruct (Cm (g_id g)) as [_ E]. rewrite E in Hc.
-    destruct (moved_pos_ex (s_now s) ups (g_id g)) as (g2 & Hi2 & E2 & St); [lia|].
-    pose proof (Uget _ Hi2) as G2. rewrite E2 in G2. rewrite (Aget g Hi) in G2. inversion G2; subst g2.
-    split; auto. }
+  assert (FA : Forall (fun g => gauge_ok g /\ remain_epochs g <> 0) acts).
+  { apply Forall_forall. intros g Hi. destruct (InA g Hi) as [Hs Hc]. split; [auto|]. apply (remain_epochs_nonzero s g I Hs). apply A1pos; auto. }
   destruct (distribute_loop_succeeds cfg thr (s_locks s) acts (s_gauges s) [] [] [] Ne FA) as (store' & di & DL). rewrite DL.
   assert (Fok : Forall gauge_ok acts) by (apply Forall_forall; intros g Hi; apply Ig; apply InA; auto).
   assert (Fd : Forall dur_ok acts) by (apply Forall_forall; intros g Hi; apply Id; apply InA; auto).
@@ -638,9 +615,7 @@ Proof. intros. constructor; cbn; try (intros k id H; cbn in H; lia); constructor
 (* finding C09-F3 is the ONLY way an epoch end can fail: without an error of the injected min-value quote,
    AfterEpochEnd succeeds in every reachable state *)
 Theorem epoch_fails_only_by_quote_error : forall cfg funds ops thr, cfg_ok cfg -> thr_no_error thr ->
-  let s := run cfg (init_state funds) ops in
-  (forall g, takes_part s g -> nolock_ok g) ->
-  exists s', after_epoch_end cfg thr s = Ok s'.
+  exists s', after_epoch_end cfg thr (run cfg (init_state funds) ops) = Ok s'.
 Proof.
   intros. apply epoch_succeeds; auto; [apply reachable_inv; auto|apply run_inv2; auto; [apply init_inv|apply init_inv2]].
 Qed.
